@@ -26,8 +26,11 @@ static void dtor(struct urefcount *r);
 #ifndef NT
 #define NT 2
 #endif
-#ifndef STEPS
-#define STEPS 24
+#ifndef ROUNDS
+#define ROUNDS 4
+#endif
+#ifndef BUDGET
+#define BUDGET 8
 #endif
 static const char *const prog[3] = { PROG0, PROG1,
 #ifdef PROG2
@@ -94,7 +97,7 @@ static void after_release(int t, bool ret)
 #endif
 #define DEFINE_THREAD(T)                                                            \
 static FU fu_##T; static FR fr_##T;                                                 \
-static void step_##T(void)                                                          \
+static void step_##T(int budget)                                                          \
 {                                                                                   \
     char op = prog[T][cur[T]];                                                      \
     bool fin;                                                                       \
@@ -104,6 +107,7 @@ static void step_##T(void)                                                      
         fr_##T.pc = 0; fr_##T.prev = -1; fr_##T.v_0 = OBJ;                          \
     }                                                                               \
     running = T;                                                                    \
+    fu_##T.budget = budget; fr_##T.budget = budget;                                           \
     if (op == 'u')                                                                  \
         fin = SU(&fu_##T);                                                          \
     else {                                                                          \
@@ -122,16 +126,8 @@ DEFINE_THREAD(1)
 #if NT > 2
 DEFINE_THREAD(2)
 #endif
-static void step(int t)
-{
-    switch (t) {
-        case 0: step_0(); break;
-        case 1: step_1(); break;
-#if NT > 2
-        default: step_2(); break;
-#endif
-    }
-}
+static unsigned now;
+#define RUN_THREAD(T) if (cur[T] < plen[T]) { now++; step_##T((int)nd_range(0, BUDGET)); }
 
 int main(void)
 {
@@ -148,18 +144,23 @@ int main(void)
     for (int t = 1; t < NT; t++)
         urefcount_use(&rc);         /* the creator hands one reference to every thread */
 #endif
-    for (int i = 0; i < STEPS; i++) {
+    /* context-bounded schedule: ROUNDS rounds; in every round each thread, in turn, executes a symbolic number
+     * (0..BUDGET) of shared-memory accesses of its current operation (a slice ends with the operation at the
+     * latest).  Every schedule in which no thread is preempted more than ROUNDS times is covered; the solver
+     * picks the slice lengths. */
+    for (int r = 0; r < ROUNDS; r++) {
+        RUN_THREAD(0)
+        RUN_THREAD(1)
+#if NT > 2
+        RUN_THREAD(2)
+#endif
+    }
+    {
         bool all = true;
         for (int t = 0; t < NT; t++)
             all = all && cur[t] == plen[t];
-        if (all)
-            break;
-        int t = (int)nd_range(0, NT - 1);
-        VASSUME(cur[t] < plen[t]);
-        step(t);
+        VASSUME(all);       /* schedules that do not complete within the round bound are outside the bound (see witness twin) */
     }
-    for (int t = 0; t < NT; t++)
-        VASSERT(cur[t] == plen[t], "schedule bound: every thread finished within STEPS steps (raise STEPS otherwise)");
 #ifdef SHARED
     VASSERT(true_releases == 1, "exactly one release reports that the area must be returned");
     VASSERT(uatomic_load(&shared.refcount) == 0, "no reference left");
